@@ -5,6 +5,7 @@
 -/
 import PhotVerif.Model.Isophote
 import PhotVerif.Gen.IsophoteTable
+import PhotVerif.Gen.IsophoteFns
 import PhotVerif.Proofs.FieldInst
 import Mathlib.Algebra.Order.Field.Rat
 import Mathlib.Data.List.Chain
@@ -429,5 +430,20 @@ theorem radius_between_axes (sma eps c s : Rat) (h : c * c + s * s = 1) (he0 : 0
   have hq : 0 ≤ (1 - eps) * (1 - eps) := mul_self_nonneg _
   have hq1 : (1 - eps) * (1 - eps) ≤ 1 := by nlinarith
   constructor <;> nlinarith
+
+/-! ### the growth formulas translated from geometry.py (T-py) are the model's -/
+
+/-- T-py tie: `EllipseGeometry.update_sma`, translated from geometry.py on every run, is the model's `updateSma` -/
+theorem generated_updateSma [MathOps Rat] (lin : Bool) (sma step : Rat) :
+    Gen.EGeom.updateSma (α := Rat) ⟨sma, lin⟩ step = updateSma lin sma step := by
+  unfold Gen.EGeom.updateSma updateSma
+  have h1 : (1.0 : Rat) = 1 := by norm_num
+  cases lin <;> simp [h1]
+
+theorem generated_resetSma [MathOps Rat] (lin : Bool) (sma step : Rat) :
+    Gen.EGeom.resetSma (α := Rat) ⟨sma, lin⟩ step = resetSma lin sma step := by
+  unfold Gen.EGeom.resetSma resetSma
+  have h1 : (1.0 : Rat) = 1 := by norm_num
+  cases lin <;> simp [h1]
 
 end PhotVerif.C20
